@@ -163,6 +163,13 @@ func SetCrashAtMut(k int) {
 	ctl.mu.Unlock()
 }
 
+// SetBudget allows n more operations from now before the run is aborted.
+func SetBudget(n int) {
+	ctl.mu.Lock()
+	ctl.budget = ctl.ops + n
+	ctl.mu.Unlock()
+}
+
 // MutCount returns the number of mutating operations so far.
 func MutCount() int {
 	ctl.mu.Lock()
